@@ -248,6 +248,8 @@ type Exec struct {
 	paths    int
 	maxPaths int
 	entry    *Heap
+	rec      *[]frameLoc // when set, store/havocLoc record the locations they write
+	implLockgen bool     // modifies lockstate(m) of a function with a body also covers lockgen(m)
 	params   map[string]CV
 	aborted  string
 	guards   []*guardInfo
@@ -733,7 +735,15 @@ func (ex *Exec) enterLoopHeader(st *State, fr *Frame, li *loopInfo, from *ssa.Ba
 				ex.addOb(st, "decreases", ex.obName(fmt.Sprintf("loop%d.decreases", li.index), dec.Label), dec.Src, li.header.Instrs[0].Pos(), And(Lt(cv.T, le.dec), Ge(le.dec, IntLit(0))))
 			}
 		}
+		if isTop {
+			// the frame condition is an implicit invariant of every loop: preserved
+			ex.frameCond(st, li.header.Instrs[0].Pos(), false)
+		}
 		return nil, true
+	}
+	if isTop {
+		// ... and established
+		ex.frameCond(st, li.header.Instrs[0].Pos(), false)
 	}
 	// entry: establish
 	env := ex.invEnv(st, fr, li.header, phiVals)
@@ -790,6 +800,9 @@ func (ex *Exec) enterLoopHeader(st *State, fr *Frame, li *loopInfo, from *ssa.Ba
 			return nil, true
 		}
 		st.assume(cv.T)
+	}
+	if isTop {
+		ex.frameCond(st, li.header.Instrs[0].Pos(), true)
 	}
 	le := &loopEntry{}
 	if dec != nil {
@@ -1105,16 +1118,20 @@ func (ex *Exec) store(st *State, addr Term, val Term, t types.Type) {
 	a := w.addr[addr.S]
 	if a == nil || a.Kind == "struct" || a.Kind == "global" {
 		n, s := w.CellArray(t)
+		ex.recLoc(frameLoc{Array: n, Key: addr})
 		w.heapSet(h, n, Store(w.heapGet(h, n, s), addr, val))
 		return
 	}
 	switch a.Kind {
 	case "field", "cell":
+		ex.recLoc(frameLoc{Array: a.Array, Key: a.Base})
 		w.heapSet(h, a.Array, Store(w.heapGet(h, a.Array, a.ASort), a.Base, val))
 	case "belem":
+		ex.recLoc(frameLoc{Array: "BM", Key: a.Base, Range: true, Off: a.Idx, Len: IntLit(1)})
 		bm := w.heapGet(h, "BM", ArraySort(SRef, SBytes))
 		w.heapSet(h, "BM", Store(bm, a.Base, App(SBytes, "bset", Select(bm, a.Base), a.Idx, val)))
 	case "elem":
+		ex.recLoc(frameLoc{Array: a.Array, Key: a.Base, Range: true, Off: a.Idx, Len: IntLit(1)})
 		arr := w.heapGet(h, a.Array, a.ASort)
 		w.heapSet(h, a.Array, Store(arr, a.Base, Store(Select(arr, a.Base), a.Idx, val)))
 	default:
